@@ -102,6 +102,11 @@ theorem step_stopped (s : St) (op : Op) (h : Stopped s) : Stopped (step s op).1 
       · cases i <;> simp [step, hp, hs, firstOf] at hq ⊢
       · simp [step, hp] at hq
   | supTrigger i id => cases id <;> simpa [step, Stopped] using h
+  | nestedUnknown c =>
+    simp only [step]
+    split
+    · split <;> simpa [Stopped] using h
+    · exact h
   | _ =>
     intro hq
     rw [step_error]
@@ -174,7 +179,7 @@ theorem harmless_outcomes_reported_only (s : St) :
 
 /-- which external-event operations are errors *inside* a handler according to the property text -/
 def documentedFatal : Op → Bool
-  | .handlerErr _ | .ctrlAbort _ | .ctrlShutdown | .nestedUnknown => true
+  | .handlerErr _ | .ctrlAbort _ | .ctrlShutdown | .nestedUnknown _ => true
   | _ => false
 
 /- Full statement (NOT provable, the code violates it for `nestedUnknown`):
@@ -190,9 +195,9 @@ theorem classification_partial (s : St) (h : s.ready = true) (op : Op)
 
 /-- the counter-example that blocks the full statement (replayed on the implementation by the check) -/
 theorem nested_unknown_event_not_fatal :
-    documentedFatal .nestedUnknown = true ∧
-    (step { phase := .tryBlock } .nestedUnknown).2.dels = [] ∧
-    (step { phase := .tryBlock } .nestedUnknown).1.ready = true := by decide
+    ∀ c, documentedFatal (.nestedUnknown c) = true ∧
+    (step { phase := .tryBlock } (.nestedUnknown c)).2.dels = [] ∧
+    (step { phase := .tryBlock } (.nestedUnknown c)).1.ready = true := by decide
 
 /-- an exception inside an event handler terminates the simulation even though the caller gets
     (and may swallow) the exception: the register is written before the exception reaches the caller -/
